@@ -151,11 +151,13 @@ def specStep (s : St) (op : Op) : Option (M St) :=
       | _, _ => specRun s (replaceStr d w))
   | none =>
   match op with
-  | .sweep => some (specSweep s (List.range nCalls))
+  | .sweep => some (specSweep s (sweepOrder s))
   | .err _ _ => some (pure s)
   | .efun _ _ _ => some (pure s)
   | .rest _ => some (pure s)
   | .resto _ => some (pure s)
+  | .fefun _ _ _ _ => some (pure s)
+  | .frest _ _ => some (pure s)
   | op => (compile s op).map (specRun s)
 
 /-- cells reachable from the roots -/
@@ -177,6 +179,7 @@ def rootPtrs (s : St) : List Nat :=
 def kindName : Kind → String
   | .arr => "array" | .map => "mapping" | .cls => "class" | .buf => "buffer" | .fn => "funptr"
   | .str => "string" | .mstr => "mstring" | .obj => "object" | .call => "call_out" | .sent => "sentence"
+  | .prog => "program" | .pack => "clones"
 
 structure JSt where
   s : St := St.init
@@ -186,7 +189,6 @@ structure JSt where
   flagged : List String := []         -- counters already reported
   stop : Bool := false
   idx : Nat := 0
-  anon : Nat := 0                     -- clones made by `clones n` (only counted)
   ctx : String := ""                  -- which value builder the current operation runs (verdict text)
   pwrap : Bool := false               -- the program had more than 2^progRefBits - 1 holders
 
@@ -211,7 +213,8 @@ def maxHolders (s : St) : Nat := s.heap.foldl (fun m c => if c.live && c.ref > m
 def parseField (pfx : String) (t : String) : Option (List String) :=
   if t.startsWith pfx then some ((t.drop pfx.length).toString.splitOn ",") else none
 
-def expectStats (s : St) (anon : Nat) : List (String × Int) :=
+def expectStats (s : St) : List (String × Int) :=
+  let anon := anonCount s
   let lv := s.heap.filter (·.live)
   let arrs := lv.filter (·.kind == .arr)
   let maps := lv.filter (·.kind == .map)
@@ -221,7 +224,7 @@ def expectStats (s : St) (anon : Nat) : List (String × Int) :=
    ("total_mapping_nodes", ((maps.map (fun c => c.items.length / 2)).foldl (· + ·) 0 : Nat)),
    ("num_distinct_strings", ((lv.filter (·.kind.isStr)).length : Int)),
    ("allocd_strings", 0),
-   ("tot_alloc_object", (((lv.filter (·.kind == .obj)).length + anon : Nat) : Int))]
+   ("tot_alloc_object", (((lv.filter (·.kind == .obj)).length + anon : Nat) : Int) - (unloadedCount s : Int))]
 
 /-- compare one `ok r:.. st:..` line with the specification state -/
 def judgeOk (j : JSt) (s : St) (rs sts : List String) : JSt := Id.run do
@@ -251,7 +254,7 @@ def judgeOk (j : JSt) (s : St) (rs sts : List String) : JSt := Id.run do
             if cell.kind.isStr && j.immortal.contains c && rv == 0 then pure ()
             else
               j := j.flag s!"ref-mismatch op={j.idx} cell={c} kind={k} ref={rv} holders={cell.ref}{wrapSfx (j.wrap || cell.ref ≥ 2 ^ W)}"
-  let exp := expectStats s j.anon
+  let exp := expectStats s
   for ((name, want), got) in exp.zip sts do
     if name == "allocd_strings" || got == "-" then pure ()
     else if name == "num_distinct_strings" then
@@ -278,25 +281,39 @@ def judgeOk (j : JSt) (s : St) (rs sts : List String) : JSt := Id.run do
                        else s!"counter-low op={j.idx}{j.ctx} counter={name} by={d}{wrapSfx j.wrap}")
   return j
 
-/-- holders of the harness program: the blueprint and every object structure that is still allocated -/
-def progHolders (s : St) (anon : Nat) : Nat :=
-  1 + ((s.heap.filter (fun c => c.live && c.kind == .obj)).length) + anon
+/-- programs: the specification state holds the cells `cProg` / `cBase` like any other value (holders: blueprint
+    objects, object structures, inheriting programs); the implementation prints `p:<uobj>/<base>` -/
+def judgeProgOne (j : JSt) (s : St) (c : Nat) (name got : String) : JSt :=
+  match s.heap[c]? with
+  | none => j
+  | some cell =>
+    let j := { j with pwrap := j.pwrap || cell.ref ≥ 2 ^ NV.Gen.C06.progRefBits }
+    if got == "x" then
+      if cell.live then j.flag s!"freed-while-held op={j.idx} kind=program prog={name} holders={cell.ref}{wrapSfx j.pwrap}" else j
+    else match got.toNat? with
+      | some r =>
+        if !cell.live then j.flag s!"leak op={j.idx} kind=program prog={name} ref={r} holders=0{wrapSfx j.pwrap}"
+        else if r != cell.ref then
+          j.flag s!"ref-mismatch op={j.idx} kind=program prog={name} ref={r} holders={cell.ref}{wrapSfx j.pwrap}"
+        else j
+      | none => j.flag s!"trace-mismatch op={j.idx} field=p:{got}"
 
 def judgeProg (j : JSt) (s : St) (pf : String) : JSt :=
-  let want := progHolders s j.anon
-  let j := { j with pwrap := j.pwrap || want ≥ 2 ^ NV.Gen.C06.progRefBits }
-  if pf == "p:x" then
-    j.flag s!"freed-while-held op={j.idx} kind=program holders={want}{wrapSfx j.pwrap}"
-  else match (pf.drop 2).toString.toNat? with
-    | some r =>
-      if r != want then j.flag s!"ref-mismatch op={j.idx} kind=program ref={r} holders={want}{wrapSfx j.pwrap}" else j
-    | none => j.flag s!"trace-mismatch op={j.idx} field={pf}"
+  match (pf.drop 2).toString.splitOn "/" with
+  | [a, b] => if pf.startsWith "p:" then judgeProgOne (judgeProgOne j s cProg "uobj" a) s cBase "base" b
+              else j.flag s!"trace-mismatch op={j.idx} field={pf}"
+  | _ => j.flag s!"trace-mismatch op={j.idx} field={pf}"
+
+def specProgFreed (s : St) : Bool :=
+  match s.heap[cProg]? with
+  | some cell => !cell.live
+  | none => true
 
 /-- the function-name strings must be held exactly once per pending call_out and per add_action sentence -/
 def judgeNames (j : JSt) (s : St) (ff : String) : JSt :=
   let want := ((List.range nCalls).filter (fun k => !isNumRoot s (rCall k))).length +
               ((List.range nSents).filter (fun k => !isNumRoot s (rSent k))).length
-  if ff == "f:-" then j
+  if ff == "f:-" then (if specProgFreed s then j else j.flag s!"trace-mismatch op={j.idx} field={ff}")
   else match ((ff.drop 2).toString.toInt?) with
     | some g =>
       if g != (want : Int) && !j.flagged.contains "fn" then
@@ -327,15 +344,10 @@ def judgeTexts (j : JSt) (s : St) (tf : String) : JSt := Id.run do
 def judgeLine (j : JSt) (op : Option Op) (line : String) : JSt :=
   if j.stop then j else
   let j := { j with idx := j.idx + 1 }
-  -- the program counter probe: only the number of anonymous clones changes
-  let (j, op) := match op with
-    | some (.clones n) => (if line.startsWith "ok" then { j with anon := j.anon + n } else j, some (Op.efun 0 0 0))
-    | some (.unclone n) =>
-      if j.anon < n || !j.s.dlist.isEmpty then (j, none)
-      else (if line.startsWith "ok" then { j with anon := j.anon - n } else j, some (Op.efun 0 0 0))
-    | o => (j, o)
   let j := { j with ctx := match op with
     | some (.efun f _ _) => s!" efun={f}"
+    | some (.fefun f _ _ k) => s!" efun={f} error-injected-at-instruction={k}"
+    | some (.frest w k) => s!" restore_variable={w} error-injected-at-instruction={k}"
     | some (.rest w) => s!" restore_variable={w}"
     | some (.resto w) => s!" restore_object={w}"
     | some (.err _ _) => " error-under-frames"
@@ -349,7 +361,11 @@ def judgeLine (j : JSt) (op : Option Op) (line : String) : JSt :=
   | some (.error e) => { (j.flag s!"spec-error op={j.idx} {e.name}") with stop := true }
   | some (.ok s') =>
     let j := noteRanges (noteRanges j j.s) s'
-    match toks line with
+    -- a fault-injection sweep that found a difference names the instruction index in a 7th field `k:<n>`
+    let (tk, j) := match toks line with
+      | ["ok", r, st, pf, ff, tf, kf] => (["ok", r, st, pf, ff, tf], { j with ctx := j.ctx ++ s!" first-difference-at={kf}" })
+      | t => (t, j)
+    match tk with
     | ["ok", r, st, pf, ff, tf] =>
       match parseField "r:" r, parseField "st:" st with
       | some rs, some sts =>
@@ -360,7 +376,9 @@ def judgeLine (j : JSt) (op : Option Op) (line : String) : JSt :=
       let h := Nat.max (maxHolders j.s) (maxHolders s')
       let l := line
       if l == "uaf" || (l.splitOn "heap-use-after-free").length > 1 || (l.splitOn "double-free").length > 1 then
-        let ph := progHolders s' j.anon
+        let ph := match s'.heap[cProg]? with
+          | some cell => cell.ref
+          | none => 0
         let pw := j.pwrap || ph ≥ 2 ^ NV.Gen.C06.progRefBits
         if pw && !j.wrap then
           { (j.flag s!"use-after-free op={j.idx} kind=program holders={ph} ref-wrap") with stop := true }
